@@ -475,7 +475,7 @@ fn sym_tensor_from_input(
                             }
                             .into(),
                         ),
-                        Dimension::Fixed(size) => SymExpr::Value(*size as i32),
+                        Dimension::Fixed(size) => SymExpr::from_size(*size),
                     })
                     .collect();
                 SymTensor::from_shape(sym_shape)
